@@ -627,6 +627,16 @@ func (i *PostingsIterator) nextDocNumAtOrAfter(atOrAfter uint64) (uint64, bool, 
 		return 0, false, nil
 	}
 
+	if atOrAfter > math.MaxUint32 {
+		// document numbers are 32-bit quantities: nothing lies at or after
+		// this target (truncating it would restart from a low number)
+		i.Actual.AdvanceIfNeeded(math.MaxUint32)
+		if i.Actual.HasNext() {
+			i.Actual.Next()
+		}
+		return 0, false, nil
+	}
+
 	if i.postings == nil || i.postings == emptyPostingsList {
 		// couldn't find anything
 		return 0, false, nil
